@@ -220,6 +220,10 @@ pub enum Step {
     /// the phase protocol on a separate small arena whose root type holds no pointers (`()`, an
     /// integer, a `Static`, a derived struct without Gc fields) or, as a control, one that does
     PlainRootProtocol { root: u8, variant: u8 },
+    /// `rootless_mutate` on its temporary arena: `n` allocations with observable destructors
+    /// (optionally linked into a cycle), then the callback returns or panics; everything the
+    /// callback allocated must be destructed by the time the call has returned or unwound
+    Rootless { n: u8, cyclic: bool, panics: bool },
 }
 
 #[derive(Clone, Debug, PartialEq, Serialize, Deserialize)]
